@@ -37,7 +37,13 @@ type c14Case struct {
 	NumFmt     int    `json:"num_fmt,omitempty"`  // 0 plain, 1 zero padded, 2 explicit plus sign: all decimal
 	OmitOpp    bool   `json:"omit_opp,omitempty"` // the go line carries only the mover's own clock fields
 	RunPolls   int    `json:"run_polls,omitempty"`
-	FEN        string `json:"fen,omitempty"`
+	// Lag: the GUI has not yet read this many answers (to isready lines sent
+	// just before) when it writes the go, and goes on not reading for LagUS of
+	// simulated time; Debug: `debug on` was sent before the go.
+	Lag   int    `json:"lag,omitempty"`
+	LagUS int64  `json:"lag_us,omitempty"`
+	Debug bool   `json:"debug,omitempty"`
+	FEN   string `json:"fen,omitempty"`
 }
 
 func (c c14Case) goLine() string {
@@ -204,6 +210,13 @@ func genC14Cases(rng *rand.Rand, n int, boundary []int64) []c14Case {
 			c := base
 			c.White = rng.IntN(2) == 0
 			c.OmitOpp = rng.IntN(7) == 0
+			if rng.IntN(6) == 0 {
+				// a GUI that is behind with reading when it sends the go
+				c.Lag = 1 + rng.IntN(7)
+				lim := max(c.Own, c.MoveTime)
+				c.LagUS = 1 + rng.Int64N(min(lim*1000, 5_000_000)*2)
+			}
+			c.Debug = rng.IntN(6) == 0
 			if i == 0 {
 				c.Opp, c.OppInc = own, inc
 			} else {
@@ -246,8 +259,24 @@ func buildC14Scenario(cases []c14Case, real bool) *C14Scenario {
 		if c.PonderOff {
 			add(UStep{Op: "in", Data: "setoption name Ponder value false\n"})
 		}
+		lag := c.Lag > 0 && !real
+		if lag {
+			add(UStep{Op: "auto", N: 0})
+			add(UStep{Op: "in", Data: strings.Repeat("isready\n", c.Lag)})
+		}
+		if c.Debug {
+			add(UStep{Op: "in", Data: "debug on\n"})
+		}
 		add(UStep{Op: "in", Data: "position fen " + fen + "\n"})
 		add(UStep{Op: "in", Data: c.goLine() + "\n"})
+		if lag {
+			// has the driver taken the go line in (it has not if it is itself
+			// stuck behind the unread answers)? Only then does the deadline
+			// count from this instant.
+			add(UStep{Op: "probe"})
+			add(UStep{Op: "tick", DUS: c.LagUS})
+			add(UStep{Op: "auto", N: 1})
+		}
 		if real && c.RunPolls > 0 {
 			add(UStep{Op: "run", Polls: c.RunPolls})
 		}
@@ -266,6 +295,9 @@ func buildC14Scenario(cases []c14Case, real bool) *C14Scenario {
 		}
 		total := limit*1000 + 7_000_000
 		var at int64
+		if lag && !c.Ponder {
+			at = c.LagUS
+		}
 		for _, t := range c.Noise {
 			if t <= at || t >= total {
 				continue
@@ -275,9 +307,14 @@ func buildC14Scenario(cases []c14Case, real bool) *C14Scenario {
 			add(UStep{Op: "in", Data: "isready\n"})
 			add(UStep{Op: "grant", N: 4})
 		}
-		add(UStep{Op: "tick", DUS: total - at})
+		if total > at {
+			add(UStep{Op: "tick", DUS: total - at})
+		}
 		add(UStep{Op: "in", Data: "stop\n"}) // harmless if the deadline already ended the search
 		add(UStep{Op: "drain"})
+		if c.Debug {
+			add(UStep{Op: "in", Data: "debug off\n"})
+		}
 		if c.PonderOff {
 			add(UStep{Op: "in", Data: "setoption name Ponder value true\n"})
 		}
@@ -285,6 +322,8 @@ func buildC14Scenario(cases []c14Case, real bool) *C14Scenario {
 	add(UStep{Op: "in", Data: "quit\n"})
 	return &C14Scenario{UCI: sc, Cases: cases}
 }
+
+func (sc *UCIScenario) realLeg() bool { return !sc.Stub }
 
 // c14RealFENs are the roots of the real-search leg, white and black to move.
 var c14RealFENs = map[bool][]string{
@@ -357,6 +396,19 @@ func monitorC14(cs *C14Scenario, out *UCIOutcome, windows []*goWindow) (vs []Vio
 		if w.call.TStop < 0 {
 			add("no-deadline", fmt.Sprintf("case %+v (%q): the search was never stopped", c, w.goLine), w.goSeq)
 			continue
+		}
+		if c.Lag > 0 && !cs.UCI.realLeg() {
+			received := false
+			for _, e := range out.Events {
+				if e.Kind == "PROBE" && e.Seq > w.goSeq && (i+1 >= len(windows) || e.Seq < windows[i+1].goSeq) {
+					received = e.N == 1 && e.T == w.goT
+				}
+			}
+			if !received {
+				// the driver was itself waiting for the GUI to read when the go was
+				// written: the instant it took the go in is not observable
+				continue
+			}
 		}
 		ref := w.goT
 		if c.Ponder && !c.PonderOff {
